@@ -16,6 +16,7 @@ import (
 	"go/token"
 	"go/types"
 	"sort"
+	"strconv"
 	"strings"
 )
 
@@ -26,11 +27,14 @@ type litInfo struct {
 	ord     int
 	blk     *Block
 	info    *types.Info
+	// for a literal returned by a contracted callee ("opt returns-lit"): the values of its captured variables
+	captured map[string]Value
 }
 
 type traceState struct {
 	n                                  Term
 	kind, fn, arg, obj, err, recv, res Term
+	args, ress                         Term // all arguments / results of a synchronous call event, by position
 }
 
 func (u *Unit) newTrace(hint string) *traceState {
@@ -43,6 +47,8 @@ func (u *Unit) newTrace(hint string) *traceState {
 		err:  u.D.Fresh(hint+"_err", ArrS(SInt, SErr)),
 		recv: u.D.Fresh(hint+"_recv", ArrS(SInt, SVal)),
 		res:  u.D.Fresh(hint+"_res", ArrS(SInt, SVal)),
+		args: u.D.Fresh(hint+"_args", ArrS(SInt, ArrS(SInt, SVal))),
+		ress: u.D.Fresh(hint+"_ress", ArrS(SInt, ArrS(SInt, SVal))),
 	}
 	return t
 }
@@ -65,7 +71,7 @@ func (u *Unit) emit(env *Env, kind int, fn Term, arg Term, obj Term, errv Term) 
 
 func (u *Unit) emitRes(env *Env, kind int, fn Term, arg Term, obj Term, errv Term, res Term) {
 	t := u.trace(env)
-	nt := &traceState{n: add(t.n, IntLit(1)), kind: Store(t.kind, t.n, IntLit(int64(kind))), fn: t.fn, arg: t.arg, obj: t.obj, err: t.err, recv: t.recv, res: t.res}
+	nt := &traceState{n: add(t.n, IntLit(1)), kind: Store(t.kind, t.n, IntLit(int64(kind))), fn: t.fn, arg: t.arg, obj: t.obj, err: t.err, recv: t.recv, res: t.res, args: t.args, ress: t.ress}
 	if res.S != "" {
 		nt.res = u.define(env, "trs", Store(t.res, t.n, res))
 	}
@@ -96,7 +102,7 @@ func (u *Unit) emitRes(env *Env, kind int, fn Term, arg Term, obj Term, errv Ter
 
 func (u *Unit) traceName(env *Env, name string) (Value, bool) {
 	switch name {
-	case "tr_len", "tr_kind", "tr_fn", "tr_arg", "tr_obj", "tr_err", "tr_recv", "tr_res":
+	case "tr_len", "tr_kind", "tr_fn", "tr_arg", "tr_obj", "tr_err", "tr_recv", "tr_res", "tr_args", "tr_ress":
 	default:
 		return Value{}, false
 	}
@@ -116,6 +122,10 @@ func (u *Unit) traceName(env *Env, name string) (Value, bool) {
 		return Value{t.recv, nil}, true
 	case "tr_res":
 		return Value{t.res, nil}, true
+	case "tr_args":
+		return Value{t.args, nil}, true
+	case "tr_ress":
+		return Value{t.ress, nil}, true
 	}
 	return Value{t.err, nil}, true
 }
@@ -128,7 +138,7 @@ func (u *Unit) havocTrace(env *Env) {
 	// events before the call are history: they do not change
 	i := u.D.Bound("i", SInt)
 	rng := And(le(IntLit(0), i), lt(i, old.n))
-	env.assume(Forall([]Term{i}, Imp(rng, And(Same(Select(nt.kind, i), Select(old.kind, i)), Same(Select(nt.fn, i), Select(old.fn, i)), Same(Select(nt.arg, i), Select(old.arg, i)), Same(Select(nt.obj, i), Select(old.obj, i)), Same(Select(nt.err, i), Select(old.err, i)), Same(Select(nt.recv, i), Select(old.recv, i)), Same(Select(nt.res, i), Select(old.res, i))))))
+	env.assume(Forall([]Term{i}, Imp(rng, And(Same(Select(nt.kind, i), Select(old.kind, i)), Same(Select(nt.fn, i), Select(old.fn, i)), Same(Select(nt.arg, i), Select(old.arg, i)), Same(Select(nt.obj, i), Select(old.obj, i)), Same(Select(nt.err, i), Select(old.err, i)), Same(Select(nt.recv, i), Select(old.recv, i)), Same(Select(nt.res, i), Select(old.res, i)), Same(Select(nt.args, i), Select(old.args, i)), Same(Select(nt.ress, i), Select(old.ress, i))))))
 	env.tr = nt
 }
 
@@ -164,7 +174,25 @@ func (u *Unit) applyEffectful(env *Env, fn Term, sig *types.Signature, args []Va
 			res0 = u.box(vals[0]).Term
 		}
 	}
+	at0 := u.trace(env).n
 	u.emitRes(env, 1, fn, arg, Term{}, errv, res0)
+	// all arguments and results by position (a variadic tail passed as s... is one slice value)
+	{
+		boxAll := func(vs []Value, base Term) Term {
+			row := u.D.Fresh("trrow", ArrS(SInt, SVal))
+			_ = base
+			for k, v := range vs {
+				t := v.Term
+				if v.Sort != SVal {
+					t = u.box(v).Term
+				}
+				env.assume(Same(Select(row, IntLit(int64(k))), t))
+			}
+			return row
+		}
+		env.tr.args = u.define(env, "trargs", Store(env.tr.args, at0, boxAll(args, Term{})))
+		env.tr.ress = u.define(env, "trress", Store(env.tr.ress, at0, boxAll(vals, Term{})))
+	}
 	u.callbackHavoc(env)
 	// "opt callback-result-inv=<Macro>": what the unit assumes about pointer results of user callbacks (part of its contract
 	// with the user: e.g. the function given to FlatMap returns a usable MonadIO)
@@ -385,6 +413,15 @@ func (u *Unit) applyKnownLit(env *Env, li *litInfo, fn Term, sig *types.Signatur
 func (u *Unit) applyLitByContract(env *Env, li *litInfo, fn Term, sig *types.Signature, args []Value, at ast.Node) []Outcome {
 	blk := li.blk
 	sc := *u.ownCtx
+	if li.captured != nil {
+		// a literal of another function: its contract speaks about its captured variables, whose values the callee's
+		// "returns-lit" promise fixed
+		sc = specCtx{names: map[string]Value{}, fi: li.owner, blk: blk, oldNames: map[string]Value{}}
+		for k, v := range li.captured {
+			sc.names[k] = v
+			sc.oldNames[k] = v
+		}
+	}
 	sc.bound = map[string]Value{}
 	i := 0
 	for _, fld := range li.lit.Type.Params.List {
@@ -574,4 +611,137 @@ func (u *Unit) sortSliceStable(c *ast.CallExpr, env *Env) []Outcome {
 
 func (u *Unit) userSpecFn(name string, x *ast.CallExpr, env *Env, sc *specCtx) (Value, bool) {
 	return Value{}, false
+}
+
+// "opt returns-lit=[Func:]N": the function returns its literal N (or literal N of Func, obtained by calling Func), whose captured
+// variables are parameters holding the values the caller passed.  Callers then use that literal's contract when they apply
+// the returned function value.
+func (u *Unit) returnsLitSpec(blk *Block, self *FuncInfo) (*FuncInfo, int, bool) {
+	spec := ""
+	if blk != nil {
+		spec = blk.Opts["returns-lit"]
+	}
+	if spec == "" {
+		return nil, 0, false
+	}
+	owner := self
+	if k := strings.LastIndex(spec, ":"); k >= 0 {
+		owner = u.Prog.Funcs[keyPrefixOf(self.Key)+spec[:k]]
+		if owner == nil {
+			owner = u.Prog.Funcs[spec[:k]]
+		}
+		spec = spec[k+1:]
+	}
+	n, err := strconv.Atoi(spec)
+	if err != nil || owner == nil {
+		unsup("bad returns-lit option %q", blk.Opts["returns-lit"])
+	}
+	return owner, n, true
+}
+
+func keyPrefixOf(key string) string {
+	if k := strings.Index(key, ":"); k >= 0 && !strings.Contains(key[:k], "(") {
+		return key[:k+1]
+	}
+	return ""
+}
+
+// free variables of a literal that are declared outside it (and are not package-level)
+func capturedVars(info *types.Info, lit *ast.FuncLit) []*types.Var {
+	var out []*types.Var
+	seen := map[*types.Var]bool{}
+	ast.Inspect(lit.Body, func(n ast.Node) bool {
+		id, ok := n.(*ast.Ident)
+		if !ok {
+			return true
+		}
+		v, ok := info.Uses[id].(*types.Var)
+		if !ok || v.IsField() || v.Pkg() == nil || v.Parent() == v.Pkg().Scope() || seen[v] {
+			return true
+		}
+		if v.Pos() >= lit.Pos() && v.Pos() <= lit.End() {
+			return true
+		}
+		seen[v] = true
+		out = append(out, v)
+		return true
+	})
+	return out
+}
+
+// caller side: register the returned function value as that literal
+func (u *Unit) registerReturnedLit(env *Env, fi *FuncInfo, blk *Block, res Term, scope map[string]Value) {
+	owner, ord, ok := u.returnsLitSpec(blk, fi)
+	if !ok || res.Sort != SFn {
+		return
+	}
+	lit := litByOrdinal(owner, ord)
+	if lit == nil {
+		unsup("returns-lit: %s has no literal %d", owner.Key, ord)
+	}
+	lblk := u.Prog.Contracts.Get(owner.Key, fmt.Sprintf("lit %d", ord))
+	if lblk == nil {
+		unsup("returns-lit: literal %d of %s has no contract block", ord, owner.Key)
+	}
+	cap := map[string]Value{}
+	for _, v := range capturedVars(owner.Pkg.TypesInfo, lit) {
+		val, ok := scope[v.Name()]
+		if !ok {
+			unsup("returns-lit: captured variable %s of %s is not a parameter of %s", v.Name(), owner.Key, fi.Key)
+		}
+		cap[v.Name()] = val
+	}
+	env.assume(Not(Same(res, Term{"nil_Fn", SFn})))
+	u.knownLits[res.S] = &litInfo{lit: lit, owner: owner, ord: ord, blk: lblk, info: owner.Pkg.TypesInfo, captured: cap}
+}
+
+// callee side: the promise is checked at every return
+func (u *Unit) checkReturnsLit(o Outcome) {
+	owner, ord, ok := u.returnsLitSpec(u.Block, u.FI)
+	if !ok {
+		return
+	}
+	pos := o.pos
+	if !pos.IsValid() {
+		pos = u.FI.Decl.End()
+	}
+	var li *litInfo
+	if len(o.vals) > 0 {
+		li = u.knownLits[o.vals[0].Term.S]
+	}
+	isLit := li != nil && li.owner == owner && li.ord == ord
+	u.assert(o.env, "returns-lit/is-literal", "post", pos, fmt.Sprintf("the result is literal %d of %s", ord, owner.Key), boolTerm(isLit))
+	if !isLit {
+		return
+	}
+	for _, v := range capturedVars(owner.Pkg.TypesInfo, li.lit) {
+		var cur Term
+		if li.captured != nil {
+			cur = li.captured[v.Name()].Term
+		} else {
+			cur = o.env.vars[v]
+		}
+		// the parameter of this function with that name, at entry
+		var entry Term
+		for obj, t := range u.entry.vars {
+			if pv, ok := obj.(*types.Var); ok && pv.Name() == v.Name() && u.isParam(pv) {
+				entry = t
+			}
+		}
+		if cur.S == "" || entry.S == "" {
+			u.assert(o.env, "returns-lit/captures/"+v.Name(), "post", pos, "captured variable "+v.Name()+" is a parameter of this function", False)
+			continue
+		}
+		u.assert(o.env, "returns-lit/captures/"+v.Name(), "post", pos, "captured "+v.Name()+" holds the value passed by the caller", Same(cur, entry))
+	}
+}
+
+func (u *Unit) isParam(v *types.Var) bool {
+	sig := u.FI.Obj.Type().(*types.Signature)
+	for i := 0; i < sig.Params().Len(); i++ {
+		if sig.Params().At(i) == v {
+			return true
+		}
+	}
+	return false
 }
